@@ -54,6 +54,8 @@ def model (line : String) : String :=
   | _ => "bad-op"
 
 def monitor (op obs : String) : String :=
+  if (obs.splitOn "nondet").length > 1 then "FAIL result-differs-between-identical-calls" else
+  if (obs.splitOn "input-mutated").length > 1 then "FAIL input-slice-modified" else
   match splitWs op with
   | [kind, seats, _seed, _retry, k, _st] =>
     if kind != "sg" && kind != "kg" then "FAIL bad-op" else
